@@ -521,11 +521,14 @@ fn gene_config_large(n_instr: usize, ctor: usize, n: u64, seed: u64, rep: &mut R
     macro_rules! drive {
         ($gg:expr) => {{
             let gg = $gg;
-            for _ in 0..n {
+            for k in 0..n {
                 let g: PushGene = gg.sample(&mut rng);
                 record(g, rep);
+                if k % (1 << 20) == (1 << 20) - 1 {
+                    rep.evals(1 << 20);
+                }
             }
-            rep.evals(n);
+            rep.evals(n % (1 << 20));
         }};
     }
     match ctor {
